@@ -198,6 +198,49 @@ def check_config(acc, h, cfg, layer, digest=None, with_decoys=False):
     check_rebound(acc, h, cfg, layer)
 
 
+def check_context_processor(acc):
+    """The bundled ContextProcessor takes injectables too: one instance shared by routes that offer different sources
+    for its defaulted name must hand each route's own value (URL binding / route resource / its default) to the
+    context, whatever was served before."""
+    import itertools
+    from clastic import Application, Route
+    from clastic.middleware import ContextProcessor, SimpleContextProcessor
+    from werkzeug.wrappers import Response
+    from mc import wsgi
+    DEF, RES = chain.Tok('cp-default'), chain.Tok('cp-route-resource')
+    for kind in ('ContextProcessor', 'SimpleContextProcessor', 'overwrite'):
+        reqs = [('/with/u1', 'u1'), ('/with/u2', 'u2'), ('/res', RES), ('/without', DEF if kind != 'SimpleContextProcessor' else None)]
+        for seq in itertools.permutations(reqs, 3):
+            seen = []
+            if kind == 'SimpleContextProcessor':
+                cp = SimpleContextProcessor('lang')
+            else:
+                cp = ContextProcessor(defaults={'lang': DEF}, overwrite=(kind == 'overwrite'))
+
+            def ep():
+                return {'own': 1}
+
+            def render(context):
+                seen.append(context.get('lang', 'ABSENT'))
+                return Response('ok')
+            app = Application([Route('/with/<lang>', ep, render), Route('/res', ep, render, resources={'lang': RES}),
+                               Route('/without', ep, render)], middlewares=[cp])
+            for j, (path, want) in enumerate(seq * 2):
+                del seen[:]
+                res = wsgi.call(app, path)
+                acc.evaluated += 1
+                acc.transitions += 1
+                acc.validated += 1
+                acc.add('nontrivial')
+                acc.outcome('CP:%s' % kind)
+                got = seen[0] if seen else 'NOT-RENDERED'
+                if res.raised is not None or res.code != 200 or got is not want and got != want:
+                    acc.violation('C02:context-processor:%s' % kind, '%s put lang=%r into the context of %s, its source there is %r '
+                                  '(requests before: %r; %s %r)' % (kind, got, path, want, [p for p, _ in (seq * 2)[:j]], res.status, res.raised),
+                                  {'cp': kind, 'layer': 'CP'})
+                    break
+
+
 def check_rebound(acc, h, cfg, layer):
     """History: the same Route / embedded application object is bound a second time, into an application that lacks
     the first one's resources.  Nothing of the first binding may reach the functions of the second."""
@@ -362,6 +405,8 @@ def shard(tier, i, n, seed):
             except Exception as e:
                 acc.violation('C02:LG:name-refused:%s' % type(e).__name__, 'an injectable named like %r was refused: %r'
                               % (cfg, e), {'cfg': cfg, 'layer': 'LG'})
+    if i == 2 % n:
+        check_context_processor(acc)
     acc.extra['hashseed_digest'] = [digest.hexdigest()]
     acc.extra['hashseed_common_cases'] = [ncommon]
     return acc
@@ -394,6 +439,11 @@ def replay_rebound(case):
 
 
 def replay(case):
+    if case.get('layer') == 'CP':
+        common.setup_repo()
+        acc = common.Acc()
+        check_context_processor(acc)
+        return (False, acc.violations[0]['desc']) if acc.violations else (True, 'ok')
     if case.get('rebound'):
         return replay_rebound(case)
     common.setup_repo()
